@@ -96,6 +96,23 @@ def fullGroupWith (C : List Vec) (centric : Bool) (S : List Op) : List Op :=
 
 def fullGroup (N : Int) (S : List Op) : List Op := fullGroupWith (specCentring N) (centricOf N) S
 
+/-! ### the same group referred to another origin
+
+    SHELXL takes any setting: the SYMM lines of a structure whose origin is not the conventional one (origin choice 1 of
+    the centrosymmetric groups with the inversion centre off the origin, an axis through (1/8, 0, z), …) carry the
+    translations `t + (1 − R) u`, whatever the shift `u` is. -/
+
+/-- the operator referred to an origin moved by `−u`: `(1, u) ∘ o ∘ (1, −u) = (R, t + u − R u)` -/
+def shiftOp (u : Vec) (o : Op) : Op := ⟨o.m, (o.t.add u).add (o.m.mulVec u).neg⟩
+
+/-- the setting `LATT N / SYMM S` referred to an origin moved by `−u`, again as LATT + SYMM. For N < 0 the SYMM
+    operators are moved. For N > 0 the inversion centre is no longer at the origin: LATT becomes `−N`, and the
+    inversion and the inverted copy of every SYMM operator are SYMM lines of their own. -/
+def shiftSetting (u : Vec) (N : Int) (S : List Op) : Int × List Op :=
+  if centricOf N then
+    (-N, shiftOp u inversion :: S.flatMap fun s => [shiftOp u s, shiftOp u (comp inversion s)])
+  else (N, S.map (shiftOp u))
+
 /-- a valid LATT number, and the SYMM operators are pairwise distinct (and distinct from the identity) modulo
     centring, inversion (when N > 0) and integer translations: the spec list has no class twice -/
 def ValidSetting (N : Int) (S : List Op) : Prop :=
@@ -209,5 +226,19 @@ structure Setting where
   S : List Op
   order : Nat
 deriving Repr
+
+/-! ### what the kernel evaluates for each tabulated setting (the `decide +kernel` runs are spread over the files
+    ShelxProps/Lemmas/C11Tab*.lean, which build in parallel; soundness: ShelxProps/Lemmas/C11Closed.lean) -/
+
+/-- valid setting, and as many operators as International Tables A list for the group -/
+def validOK (e : Setting) : Bool := validB e.N e.S && ((fullGroup e.N e.S).length == e.order)
+
+/-- the spec list is closed under left multiplication by `gs` (numerators over 24) -/
+def closedUnder (gs : Setting → List Op) (e : Setting) : Bool := leftClosedSB 24 (gs e) (fullGroup e.N e.S)
+
+def gensOfSetting (e : Setting) : List Op := gensOf e.N e.S
+
+/-- valid setting, spec list closed under its generators, order as in International Tables A -/
+def specOK (e : Setting) : Bool := validOK e && closedUnder gensOfSetting e
 
 end Shelx.C11
